@@ -2,7 +2,7 @@
 """Regenerates /verif/MANIFEST.json from the table below (kept next to the checks it describes)."""
 import json, subprocess
 
-HOOK_COMMITS = ["50f8845", "8f435d1", "6f4592f", "c39cf0a"]
+HOOK_COMMITS = ["50f8845", "8f435d1", "6f4592f", "c39cf0a", "1aac454"]
 
 # property -> (level text, note)
 CLAIMED = {
